@@ -229,7 +229,7 @@ class Ctx:
         return events
 
     def paths(self, rule, f: Func, events, step, init, at_exit, instance="", native=False, inject=(), assume=None,
-              env=None, extra_raises=None, per_exit=True):
+              env=None, extra_raises=None, per_exit=True, allow_no_exit=False):
         """run a typestate automaton over all paths; at_exit(kind, state, facts) -> message | None"""
         ev = self.events_from(events, env) if isinstance(events, list) else events
         r = self.explore(f, native=native, inject=inject, events=ev, step=step, init=init, assume=assume,
@@ -265,7 +265,9 @@ class Ctx:
                 obs.append(self.ob(rule, f, f"{nm} @{kind}", True, detail=f"{len(lst)} abstract exit states",
                                    by=(f"{len(lst)} exit states",)))
         if not by_exit and not viol:
-            raise AnalysisError(f"{rule}: no exit reachable in {f.qual}")
+            if not allow_no_exit:
+                raise AnalysisError(f"{rule}: no exit reachable in {f.qual}")
+            obs.append(self.ob(rule, f, f"{nm} (no normal exit: infinite generator)", True, detail="no exit state", by=(f"{r.nstates} states",)))
         return r, obs
 
     # ------------------------------------------------------------------ writers
